@@ -1,0 +1,15 @@
+//go:build verif
+
+package cache
+
+import "runtime"
+
+// VerifStopCleanup is a verification hook (build tag verif): it stops the background cleanup
+// goroutine, which cannot otherwise be stopped while the cache is reachable. The finalizer is
+// cleared because it would signal the same channel again once the cache becomes collectable.
+func (c *Cache[K, V]) VerifStopCleanup() {
+	if c.cleanupInt > 0 {
+		runtime.SetFinalizer(c.cache, nil)
+		c.done <- struct{}{}
+	}
+}
